@@ -560,26 +560,35 @@ Proof.
   - apply IH in H. cbn [length]. lia.
 Qed.
 
-Lemma backend_state_wf tbl bits add : forall es P,
-  wf_state tbl P -> Forall (wf_bentry tbl) es ->
-  wf_state tbl (seq_upsert b_id p_new (p_upd bits) add es P).
+Lemma add_absent_wf tbl P e :
+  wf_state tbl P -> wf_bentry tbl e -> wf_state tbl (add_absent b_id p_new P e).
 Proof.
-  unfold seq_upsert. induction es as [|e r IH]; intros P S F; [exact S|].
-  inversion F as [|? ? [B1 [B2 [B3 [B4 [B5 [B6 B7]]]]]] Fr]; subst. cbn [fold_left]. apply IH; [|exact Fr].
-  assert (S1 : wf_state tbl (if add then add_absent b_id p_new P e else P)).
-  { destruct add; [|exact S]. unfold add_absent. destruct (aget (b_id e) P); [exact S|].
-    apply Forall_aset; [exact S|]. split; [exact B1|].
-    unfold wf_attrs, p_new. cbn [fst snd a_name a_props a_latency a_gm a_dn a_order].
-    split; [exact B2|]. split; [exact B3|]. unfold int32, dn_ok. repeat split; try lia. }
-  revert S1. generalize (if add then add_absent b_id p_new P e else P). intros P1 S1.
-  unfold upd_present. destruct (aget (b_id e) P1) as [a|] eqn:G; [|exact S1].
-  apply Forall_aset; [exact S1|]. destruct (Forall_aget _ _ _ _ S1 G) as [I [A1 [A2 [A3 [A4 [A5 A6]]]]]].
+  intros S [B1 [B2 [B3 [B4 [B5 [B6 B7]]]]]]. unfold add_absent. destruct (aget (b_id e) P); [exact S|].
+  apply Forall_aset; [exact S|]. split; [exact B1|].
+  unfold wf_attrs, p_new. cbn [fst snd a_name a_props a_latency a_gm a_dn a_order].
+  split; [exact B2|]. split; [exact B3|]. unfold int32, dn_ok. repeat split; try lia.
+Qed.
+
+Lemma upd_present_wf tbl bits P e :
+  wf_state tbl P -> wf_bentry tbl e -> wf_state tbl (upd_present b_id (p_upd bits) P e).
+Proof.
+  intros S [B1 [B2 [B3 [B4 [B5 [B6 B7]]]]]]. unfold upd_present. destruct (aget (b_id e) P) as [a|] eqn:G; [|exact S].
+  apply Forall_aset; [exact S|]. destruct (Forall_aget _ _ _ _ S G) as [I [A1 [A2 [A3 [A4 [A5 A6]]]]]].
   split; [exact I|]. unfold wf_attrs, p_upd. cbn [fst snd a_name a_props a_latency a_gm a_dn a_order].
   split; [exact A1|]. split; [exact A2|].
   split; [destruct (has_action bits 4); assumption|].
   split; [destruct (has_action bits 2); assumption|].
   split; [destruct (has_action bits 5); assumption|].
   destruct (has_action bits 6); assumption.
+Qed.
+
+Lemma backend_state_wf tbl bits add : forall es P,
+  wf_state tbl P -> Forall (wf_bentry tbl) es ->
+  wf_state tbl (seq_upsert b_id p_new (p_upd bits) add es P).
+Proof.
+  unfold seq_upsert. induction es as [|e r IH]; intros P S F; [exact S|].
+  inversion F as [|? ? Fe Fr]; subst. cbn [fold_left]. apply IH; [|exact Fr].
+  apply upd_present_wf; [|exact Fe]. destruct add; [apply add_absent_wf; assumption|exact S].
 Qed.
 
 Lemma pstep_wf ver tbl P o :
@@ -665,4 +674,15 @@ Proof.
   exists (apply_all [] (spackets spec_tcfg ver tbl [] h)). split.
   - rewrite packets_wire. apply wires_ok. exact F.
   - intros k. rewrite aget_view. exact (C28_struct ver tbl h [] [] (fun _ => eq_refl) WT k).
+Qed.
+
+(* ---------- the premise on chat components holds for every JSON-era component ---------- *)
+
+Lemma comp_ok_json ver s : ver < 765 -> short 262144 s -> comp_ok ver (enc_string s).
+Proof.
+  intros V S rest. unfold rd_component.
+  replace (ver <? 765) with true by (symmetry; apply N.ltb_lt; exact V).
+  rewrite rd_string_enc by exact S.
+  rewrite app_length. replace (length (enc_string s) + length rest - length rest)%nat with (length (enc_string s)) by lia.
+  rewrite firstn_app, Nat.sub_diag, firstn_all. cbn [firstn]. rewrite app_nil_r. reflexivity.
 Qed.
